@@ -3,6 +3,7 @@ package main
 import (
 	"bytes"
 	"context"
+	"database/sql/driver"
 	"encoding/hex"
 	"errors"
 	"fmt"
@@ -45,6 +46,7 @@ type op struct {
 type colSpec struct {
 	name string
 	oid  oid.Oid
+	deco bool // "~": table id, attribute number, width and a type modifier are set on the column
 }
 
 type stmtSpec struct {
@@ -55,7 +57,9 @@ type stmtSpec struct {
 	hasRet bool
 }
 
-var colOids = map[byte]oid.Oid{'b': 16, 's': 21, 'i': 23, 'l': 20, 't': 25, 'v': 1043, 'y': 17, 'u': 2950, 'f': 700, 'd': 701}
+// 'z': a type the harness registers through wire.ExtendTypes (OID 90001, codec zcodec, Go type zval):
+// without the registration in the connection's own type map it can be neither encoded nor decoded
+var colOids = map[byte]oid.Oid{'b': 16, 's': 21, 'i': 23, 'l': 20, 't': 25, 'v': 1043, 'y': 17, 'u': 2950, 'f': 700, 'd': 701, 'z': 90001}
 
 func unhexStrict(s string) ([]byte, bool) {
 	if len(s)%2 != 0 {
@@ -296,6 +300,8 @@ func parseStmt(query, s string) (*stmtSpec, bool) {
 	st := &stmtSpec{}
 	if parts[0] != "" {
 		for i, c := range strings.Split(parts[0], ",") {
+			deco := strings.HasSuffix(c, "~")
+			c = strings.TrimSuffix(c, "~")
 			if len(c) == 1 {
 				o, ok := colOids[c[0]]
 				if !ok {
@@ -312,6 +318,7 @@ func parseStmt(query, s string) (*stmtSpec, bool) {
 			} else {
 				return nil, false
 			}
+			st.cols[len(st.cols)-1].deco = deco
 		}
 	}
 	if parts[1] == "P" {
@@ -557,6 +564,8 @@ func goValue(v val, o oid.Oid) any {
 			return (*int64)(nil)
 		case 25, 1043:
 			return (*string)(nil)
+		case 90001:
+			return (*zval)(nil)
 		case 17:
 			return (*[]byte)(nil)
 		case 2950:
@@ -579,6 +588,8 @@ func goValue(v val, o oid.Oid) any {
 			return pgtype.Int8{}
 		case 25, 1043:
 			return pgtype.Text{}
+		case 90001:
+			return (*zval)(nil)
 		case 17:
 			return []byte(nil)
 		case 2950:
@@ -598,6 +609,9 @@ func goValue(v val, o oid.Oid) any {
 			return v.i
 		}
 	case 't':
+		if fits(90001) {
+			return zval{b: append([]byte{}, v.s...)}
+		}
 		if fits(25, 1043) {
 			return string(v.s)
 		}
@@ -644,6 +658,8 @@ func renderAny(v any) string {
 		return "i" + strconv.FormatInt(x, 10)
 	case string:
 		return "t" + hx([]byte(x))
+	case zval:
+		return "t" + hx(x.b)
 	case []byte:
 		return "y" + hx(x)
 	case [16]byte:
@@ -824,6 +840,9 @@ func (s0 *session) parseFn(ctx context.Context, query string) (wire.PreparedStat
 		cols := make(wire.Columns, len(st.cols))
 		for i, c := range st.cols {
 			cols[i] = wire.Column{Name: c.name, Oid: c.oid}
+			if c.deco {
+				cols[i].Table, cols[i].AttrNo, cols[i].Width, cols[i].TypeModifier = int32(7+i), int16(i+1), 8, 42
+			}
 		}
 		fn := func(ctx context.Context, w wire.DataWriter, params []wire.Parameter) error {
 			s := s0.of(ctx)
@@ -850,3 +869,39 @@ func (s0 *session) parseFn(ctx context.Context, query string) (wire.PreparedStat
 }
 
 var _ = bytes.Equal
+
+// zval / zcodec: the user-defined type behind column letter 'z'. The wire form is the value's bytes
+// in both formats (like text).
+type zval struct{ b []byte }
+
+type zcodec struct{}
+
+func (zcodec) FormatSupported(f int16) bool { return f == 0 || f == 1 }
+func (zcodec) PreferredFormat() int16       { return 0 }
+func (zcodec) PlanEncode(m *pgtype.Map, oid uint32, format int16, value any) pgtype.EncodePlan {
+	if _, ok := value.(zval); ok {
+		return zplan{}
+	}
+	return nil
+}
+func (zcodec) PlanScan(m *pgtype.Map, oid uint32, format int16, target any) pgtype.ScanPlan {
+	return nil
+}
+func (zcodec) DecodeDatabaseSQLValue(m *pgtype.Map, oid uint32, format int16, src []byte) (driver.Value, error) {
+	if src == nil {
+		return nil, nil
+	}
+	return string(src), nil
+}
+func (zcodec) DecodeValue(m *pgtype.Map, oid uint32, format int16, src []byte) (any, error) {
+	if src == nil {
+		return nil, nil
+	}
+	return zval{b: append([]byte{}, src...)}, nil
+}
+
+type zplan struct{}
+
+func (zplan) Encode(value any, buf []byte) ([]byte, error) {
+	return append(buf, value.(zval).b...), nil
+}
